@@ -102,12 +102,75 @@ static void sweep(SweepSink &s) {
 		}
 }
 
+// ---------------------------------------------------------------- regions of 4 GiB and more (len is a size_t)
+// One zero tile is mapped over and over (memfd: 2 MiB of memory for > 4 GiB of address space); the last two pages are private so that a
+// single non-zero byte can be planted beyond the 4 GiB mark.
+#include <sys/mman.h>
+#include <sys/syscall.h>
+#include <unistd.h>
+static const size_t ZTILE = 2u << 20, ZN = 2052; // 4 GiB + 8 MiB
+static uint8_t *g_zero;
+static uint8_t *zero_map() {
+	if (g_zero) return g_zero;
+	int fd = (int) syscall(SYS_memfd_create, "verif-zero", 0);
+	if (fd < 0 || ftruncate(fd, ZTILE)) throw Skip("memfd_create unavailable");
+	uint8_t *base = (uint8_t *) mmap(0, ZTILE * ZN + 8192, PROT_NONE, MAP_PRIVATE | MAP_ANONYMOUS | MAP_NORESERVE, -1, 0);
+	if (base == MAP_FAILED) throw Skip("cannot reserve the address space");
+	for (size_t i = 0; i < ZN; i++)
+		if (mmap(base + i * ZTILE, ZTILE, PROT_READ, MAP_SHARED | MAP_FIXED, fd, 0) == MAP_FAILED) throw Skip("cannot map tile");
+	close(fd);
+	if (mmap(base + ZN * ZTILE, 8192, PROT_READ | PROT_WRITE, MAP_PRIVATE | MAP_ANONYMOUS | MAP_FIXED, -1, 0) == MAP_FAILED) throw Skip("cannot map tail");
+	return g_zero = base;
+}
+// tape {variant, start offset selector, end selector, position selector}
+static void body_huge(Tape &t, Ctx &c) {
+	int vi = (int) t.range(0, NDIRECT + cpu::N_LEVELS - 1);
+	zfn fn;
+	std::string vname;
+	if (vi < NDIRECT) {
+		cpu::Config cfg;
+		cpu::level_config(DIRECT[vi].level, cfg);
+		if (!cpu::host_can_run(cfg)) throw Skip(std::string("host cannot execute ") + DIRECT[vi].name);
+		fn = DIRECT[vi].fn; vname = DIRECT[vi].name;
+	} else { const char *lv = cpu::LEVEL_NAMES[(vi - NDIRECT) % cpu::N_LEVELS]; kern::use_level(lv); fn = (zfn) isal_zero_detect; vname = std::string("isal_zero_detect@") + lv; }
+	uint8_t *base = zero_map();
+	size_t total = ZTILE * ZN + 8192;
+	size_t start = (size_t) t.pick<uint32_t>({0, 1, 63, 64, 65, 127, 4095});
+	size_t end = total - (size_t) t.pick<uint32_t>({0, 1, 64, 4097});        // region = [start, end), always longer than 4 GiB
+	size_t len = end - start;
+	int pm = (int) t.range(0, 3); // 0 all zero, 1 last byte, 2 a byte in the private tail beyond 4 GiB, 3 first byte of the tail
+	size_t tail0 = ZTILE * ZN;
+	size_t pos = pm == 1 ? end - 1 : pm == 2 ? tail0 + (size_t) t.range(0, 4000) : tail0;
+	c.fpmix(vi); c.fpmix(start); c.fpmix(mix64(end)); c.fpmix(pm); c.fpmix(pos);
+	memset(base + tail0, 0, 8192);
+	if (pm) base[pos] = (uint8_t) t.pick<uint32_t>({1, 0x80, 0xFF});
+	int r = -1;
+	guard::Fault f = guard::call([&] { r = fn(base + start, len); });
+	if (pm) base[pos] = 0;
+	std::string key = "zero_detect:" + vname.substr(0, vname.find('@'));
+	PBT_CHECK(!f.faulted, key, "%s(len=%zu = 4 GiB + %zu): %s", vname.c_str(), len, len - (1ull << 32), f.describe().c_str());
+	if (pm) PBT_CHECK(r != 0, key, "%s(len=%zu = 4 GiB + %zu, start offset %zu) returned 0 although byte %zu (beyond the 4 GiB mark) is non-zero", vname.c_str(), len, len - (1ull << 32), start, pos - start);
+	else PBT_CHECK(r == 0, key, "%s(len=%zu = 4 GiB + %zu) returned %d for an all-zero region", vname.c_str(), len, len - (1ull << 32), r);
+	c.nontrivial = true;
+	c.label(vi < NDIRECT ? vname : vname + "->" + cpu::resolved_name("isal_zero_detect"));
+	if (c.want_sample) c.sample = fmt("{\"variant\":%s,\"len\":%zu,\"start_offset\":%zu,\"nonzero_at\":%lld}", jstr(vname).c_str(), len, start, pm ? (long long) (pos - start) : -1ll);
+}
+static void sweep_huge(SweepSink &s) {
+	// every kernel and three dispatcher levels, all-zero and one planted byte; (the base kernel takes about a second per 4 GiB)
+	static const uint32_t V[] = {0, 1, 2, 3, 4, NDIRECT + 11, NDIRECT + 6, NDIRECT + 4, NDIRECT + 1};
+	for (uint32_t i = 0; i < 9; i++) {
+		if (!s.emit({V[i], i % 7, i % 4, 0})) return;
+		if (!s.emit({V[i], (i + 3) % 7, (i + 1) % 4, 1 + i % 3, i * 37, i % 3})) return;
+	}
+}
+
 int main(int argc, char **argv) {
 	const char *rule = "case = (variant or dispatcher@cpu-level, len, placement); each case probes the all-zero region and every byte position x {0x01,0x80,0xFF} "
 	                   "(8 sampled positions when len > 1200), then an all-0xFF region, a random non-zero region and zero regions whose last 16/32/64/128/256 bytes are 0xFF (saturated final chunk); neighbours outside the region are non-zero canaries or an inaccessible page; non-trivial: len >= 1";
 	std::vector<Sub> subs = {
 		{"sweep", body_sweep, 5, 0, sweep, rule},
 		{"random", body, 8, 1, nullptr, rule},
+		{"huge_region", body_huge, 6, 0.00002, sweep_huge, "regions longer than 4 GiB (a zero tile mapped repeatedly): every kernel and the dispatcher under several cpu levels, all-zero and with one non-zero byte planted beyond the 4 GiB mark"},
 	};
 	return pbt_main(argc, argv, "C20", subs);
 }
